@@ -58,6 +58,8 @@ metas, clock reading and retention:
 import SigModel.Model.Retention
 import SigModel.Lemmas.C14
 import SigModel.Lemmas.C14Sm
+import SigModel.Lemmas.C14Conc
+import SigModel.Lemmas.C14Dir
 
 namespace SigModel.Props.C14
 open SigModel.Retention SigModel.Lemmas.C14
@@ -896,5 +898,133 @@ theorem metrics_pass_old_blocked_by_long_line (expired : SmLine → Bool) (ls : 
     (h : ∃ l ∈ ls, mmScanLimitOld ≤ l.len) : mmPassOld expired (.lines ls) = .lines ls := by
   unfold mmPassOld
   simp [mmReadOld, mmReadWith, smScanWith_tooLong mmScanLimitOld ls h]
+
+/-! ### 8. metricmeta.json: one retention pass against concurrent rotations and readers (`MmConc`)
+
+The machine interleaves, in ANY order, the steps of one pass (`RemoveMetricsSegments`: lock, scan, one directory removal
+per removed entry, rewrite + unlock), of any number of rotations (`AddMetricsMetaEntry`: lock, append + unlock) and of any
+number of readers; a step that would wait for `mMetaLock` is not taken.  `victim` = the pass's list, `key i` = the entry
+rotation `i` appends; a freshly rotated segment is not on the list (`hk`).  Tied to the code by suite `retmmc` (replay of
+generated schedules on the real functions, stopped at pause points) and the call-order facts `C14.RemoveMetricsSegments.order`,
+`C14.removeMetricsSegmentsByList.order`, `C14.AddMetricsMetaEntry.order`, `C14.ReadMetricsMeta.order`. -/
+section MmConcProps
+open SigModel.Retention.MmConc SigModel.Lemmas.C14Conc
+
+/-- the state every schedule starts from: the file as it is, nobody has started -/
+def mmcInit (f0 d0 : List Nat) : MmConc.St := { file := f0, dirs := d0 }
+
+/-- NO ROTATION IS LOST: after any schedule, the entry of every rotation that has returned is listed in metricmeta.json -/
+theorem mmc_no_rotation_lost (victim : Nat → Bool) (key : Nat → Nat) (hk : ∀ i, victim (key i) = false)
+    (f0 d0 : List Nat) (sched : List MmConc.Tid) (i : Nat)
+    (h : MmConc.acked (MmConc.run victim key (mmcInit f0 d0) sched) i = true) :
+    key i ∈ (MmConc.run victim key (mmcInit f0 d0) sched).file := by
+  have inv : Inv victim key f0 (MmConc.run victim key (mmcInit f0 d0) sched) :=
+    inv_run victim key hk f0 sched _ (inv_init victim key f0 d0)
+  apply inv.ack i
+  simpa [MmConc.acked] using h
+
+/-- after any schedule every entry that was not to be removed is still listed -/
+theorem mmc_survivors_listed (victim : Nat → Bool) (key : Nat → Nat) (hk : ∀ i, victim (key i) = false)
+    (f0 d0 : List Nat) (sched : List MmConc.Tid) (k : Nat) (h0 : k ∈ f0) (hv : victim k = false) :
+    k ∈ (MmConc.run victim key (mmcInit f0 d0) sched).file :=
+  (inv_run victim key hk f0 sched _ (inv_init victim key f0 d0)).surv k h0 hv
+
+/-- THE PASS IS ATOMIC WITH RESPECT TO ROTATIONS: once the pass has returned — whatever was interleaved with it, and
+whatever ran afterwards — metricmeta.json lists exactly the initial entries that were not to be removed and the entries
+of the rotations that have returned -/
+theorem mmc_pass_exact (victim : Nat → Bool) (key : Nat → Nat) (hk : ∀ i, victim (key i) = false)
+    (f0 d0 : List Nat) (sched : List MmConc.Tid)
+    (hd : (MmConc.run victim key (mmcInit f0 d0) sched).ppc = .done) (k : Nat) :
+    k ∈ (MmConc.run victim key (mmcInit f0 d0) sched).file ↔
+      (k ∈ f0 ∧ victim k = false) ∨ ∃ i, k = key i ∧ MmConc.acked (MmConc.run victim key (mmcInit f0 d0) sched) i = true := by
+  have inv : Inv victim key f0 (MmConc.run victim key (mmcInit f0 d0) sched) :=
+    inv_run victim key hk f0 sched _ (inv_init victim key f0 d0)
+  constructor
+  · intro hf
+    rcases inv.only k hf with h0 | ⟨i, hi, ha⟩
+    · exact Or.inl ⟨h0, inv.clean hd k hf⟩
+    · exact Or.inr ⟨i, hi, by simp [MmConc.acked, ha]⟩
+  · intro h
+    rcases h with ⟨h0, hv⟩ | ⟨i, hi, ha⟩
+    · exact inv.surv k h0 hv
+    · rw [hi]
+      apply inv.ack i
+      simpa [MmConc.acked] using ha
+
+/-- between its scan and its rewrite the pass holds the lock: a rotation that arrives then waits (its step is not
+taken), in every reachable state -/
+theorem mmc_rotation_waits_for_pass (victim : Nat → Bool) (key : Nat → Nat) (hk : ∀ i, victim (key i) = false)
+    (f0 d0 : List Nat) (sched : List MmConc.Tid) (i : Nat)
+    (hp : (MmConc.run victim key (mmcInit f0 d0) sched).ppc = .scan ∨ (MmConc.run victim key (mmcInit f0 d0) sched).ppc = .rmdir
+      ∨ (MmConc.run victim key (mmcInit f0 d0) sched).ppc = .rewrite)
+    (ha : (MmConc.run victim key (mmcInit f0 d0) sched).apc i = .lock) :
+    MmConc.step victim key (MmConc.run victim key (mmcInit f0 d0) sched) (.app i)
+      = (MmConc.run victim key (mmcInit f0 d0) sched, .blocked) := by
+  have inv : Inv victim key f0 (MmConc.run victim key (mmcInit f0 d0) sched) :=
+    inv_run victim key hk f0 sched _ (inv_init victim key f0 d0)
+  have hw : (MmConc.run victim key (mmcInit f0 d0) sched).writer = some .pass := by
+    rcases hp with h | h | h
+    · exact inv.scanning h
+    · exact (inv.region (Or.inl h)).1
+    · exact (inv.region (Or.inr h)).1
+  simp [MmConc.step, ha, hw]
+
+/-- non-vacuity: a rotation that tries to get in after the scan and after the directory removal, then gets in:
+the pass returns, the rotation returns, the file lists the survivors and the rotated segment -/
+example :
+    let s := MmConc.run (fun k => k == 1) (fun i => 101 + i) (mmcInit [1, 2, 3] [1, 2, 3, 101])
+      [.pass, .pass, .app 0, .pass, .app 0, .pass, .app 0, .app 0]
+    s.ppc = .done ∧ MmConc.acked s 0 = true ∧ s.file = [2, 3, 101] ∧ s.dirs = [2, 3, 101] := by
+  decide
+
+end MmConcProps
+
+/-! ### 9. the directory of a segment from its key (`utils.GetSegBaseDirFromFilename`)
+
+`DeleteSegmentData` and `removeSegmetas` find the directory of a victim from its segment key.  Tied to the code by suite
+`retsbd` (the real function on generated keys) and, end to end, by suite `ret`, whose victims' index names are drawn from the
+words of the data layout. -/
+section SegDirProps
+open SigModel.Retention.SegDir SigModel.Lemmas.C14Dir
+
+/-- for every segment key in the writer's layout `<pre>/final/<index>/<stream>/<suffix>/<suffix>` (`config.GetSegKey`),
+whatever the index is called — `final` included —, the result is the segment's directory `<pre>/final/<index>/<stream>/<suffix>/`
+(`config.GetBaseSegDir`).  Hypotheses: index name, stream id and suffix hold no "/" (index names: `vtable.IsValidIndexName`),
+and the data path + host id `pre` do not themselves hold a "/final/" (stated so that an occurrence straddling the end of `pre`
+is excluded too) — the code's own note: the function is coupled to getBaseSegDir -/
+theorem segBaseDir_of_writer_layout (pre index stream suffix : List Char)
+    (hpre : findSub finalStr (pre ++ "/final".toList) = none)
+    (hi : '/' ∉ index) (hs : '/' ∉ stream) (hx : '/' ∉ suffix) :
+    segBaseDir (segKey pre index stream suffix) = some (baseSegDir pre index stream suffix) := by
+  have hfind : findSub finalStr (pre ++ finalStr ++ (index ++ ['/'] ++ stream ++ ['/'] ++ suffix ++ ['/'] ++ suffix))
+      = some pre.length :=
+    findSub_behind "/final".toList '/' _ pre hpre
+  have hkey : segKey pre index stream suffix
+      = (pre ++ finalStr) ++ (index ++ '/' :: (stream ++ '/' :: (suffix ++ '/' :: suffix))) := by
+    simp [segKey]
+  have hfind' : findSub finalStr (segKey pre index stream suffix) = some pre.length := by
+    rw [← hfind]
+    simp [segKey]
+  have hlen : (pre ++ finalStr).length = pre.length + finalStr.length := by simp
+  unfold segBaseDir
+  rw [hfind']
+  simp only
+  rw [hkey, ← hlen, List.drop_left, List.take_left]
+  rw [show depthAfterFinal = 2 + 1 from rfl, takeParts_component 2 _ index hi,
+    takeParts_component 1 _ stream hs, takeParts_component 0 _ suffix hx]
+  simp [takeParts, baseSegDir]
+
+/-- non-vacuity, and the case that matters: an index called `final` -/
+example : segBaseDir "/data/host1/final/final/123/7/7".toList = some "/data/host1/final/final/123/7/".toList := by
+  decide
+
+/-- the hypothesis on `pre` cannot be dropped: under a data path that holds a `/final/` the function answers with a
+directory of the data path -/
+theorem segBaseDir_data_path_with_final_counterexample :
+    segBaseDir (segKey "/mnt/final/sig/h".toList "app".toList "1".toList "7".toList)
+      ≠ some (baseSegDir "/mnt/final/sig/h".toList "app".toList "1".toList "7".toList) := by
+  decide
+
+end SegDirProps
 
 end SigModel.Props.C14
